@@ -55,6 +55,21 @@ Theorem regular_spacing :
 Proof. exact regular_spacing_thm. Qed.
 Print Assumptions regular_spacing.
 
+(* no_overdue_point: after every run() fewer than k traces have been processed since the last Regular column (0 when there
+   is none) — the bookkeeping never skips a point that is due; with regular_spacing: consecutive Regular points p < p' satisfy
+   p + k <= p', and whenever processed_traces reaches p + k a Regular column is appended at that batch boundary *)
+Theorem no_overdue_point :
+  forall (X M V D St O Sc : Type) (zero : St) (plus : St -> St -> St) (contrib : X * D -> St) (comp : St -> O),
+  (forall a b c : St, plus a (plus b c) = plus (plus a b) c) ->
+  (forall a : St, plus a zero = a) ->
+  (forall a : St, plus zero a = a) ->
+  forall (sf : M -> V) (model : V -> D) (disc : O -> Sc) (k : nat) (runs : list (container X M)),
+  1 <= k -> Forall (fun c => c_rows c <> [] /\ 1 <= c_bs c) runs ->
+  processed (run_seq X M V D St O Sc zero plus contrib comp sf model disc (Some k) (fresh St O Sc zero) runs)
+  < last_regular (cols (run_seq X M V D St O Sc zero plus contrib comp sf model disc (Some k) (fresh St O Sc zero) runs)) + k.
+Proof. exact no_overdue_point_thm. Qed.
+Print Assumptions no_overdue_point.
+
 (* remainder_is_last_of_run: the columns appended by one more run() are some Regular columns followed by at most one
    Remainder column, which is the last one and sits at the total number of traces processed *)
 Theorem remainder_is_last_of_run :
